@@ -145,7 +145,10 @@ def sweep(ck_prop, workers=4):
         for q, st, bad in ex.map(do_quiet, quiet):
             rec = {'id': q['id'], 'status': st, 'fired': sorted(set('%s:%s' % (b['rule'], b['key']) for b in bad))[:6]}
             results['quiet'].append(rec)
-            if st == 'fires':
+            if st == 'fires' and ck_prop in (q.get('review_needed_by') or {}):
+                rec['status'] = 'fires-as-intended'
+                rec['why'] = q['review_needed_by'][ck_prop]
+            elif st == 'fires':
                 failures.append('quiet edit %s: rules fired on a behaviour-preserving edit: %s' % (q['id'], rec['fired']))
     return results, failures
 
